@@ -349,6 +349,7 @@ func runJoin(sc JoinScenario, inBubble bool, rng *rand.Rand) *JoinTrace {
 		}
 	}
 	k := 0
+	var pendingSlice *[]int
 	timer := time.NewTimer(maxWait)
 	defer timer.Stop()
 recvLoop:
@@ -379,11 +380,18 @@ recvLoop:
 		var s []int
 		var ok bool
 		callAt := now()
-		select {
-		case s, ok = <-sys.out:
-		case <-timer.C:
-			tr.StuckMsg = fmt.Sprintf("no output and no closure within %s after %d slices", maxWait, len(tr.Out))
-			break recvLoop
+		if pendingSlice != nil {
+			// a slice that came out while the previous one was still unreleased (already
+			// recorded as such): it is consumed like any other, so that what the protocol
+			// breach does to the stream is judged too
+			s, ok, pendingSlice = *pendingSlice, true, nil
+		} else {
+			select {
+			case s, ok = <-sys.out:
+			case <-timer.C:
+				tr.StuckMsg = fmt.Sprintf("no output and no closure within %s after %d slices", maxWait, len(tr.Out))
+				break recvLoop
+			}
 		}
 		if !ok {
 			tr.Closed = true
@@ -421,12 +429,17 @@ recvLoop:
 				synctest.Wait()
 			}
 			// while the consumer owns the slice: nothing else may appear and the slice is intact
+			closedEarly := false
 			select {
 			case x, ok2 := <-sys.out:
 				if ok2 {
-					tr.ExtraOutput = fmt.Sprintf("slice %v appeared on Output() before slice #%d was released", x, k)
+					if tr.ExtraOutput == "" {
+						tr.ExtraOutput = fmt.Sprintf("slice %v appeared on Output() before slice #%d was released", x, k)
+					}
+					pendingSlice = &x
 				} else {
 					tr.ExtraOutput = fmt.Sprintf("Output() closed before slice #%d was released", k)
+					closedEarly = true
 				}
 			default:
 			}
@@ -434,7 +447,7 @@ recvLoop:
 				o.ChangedAt = fmt.Sprintf("between delivery and release (held %dns)", hold)
 			}
 			o.RelStart = now()
-			if tr.ExtraOutput == "" {
+			if !closedEarly {
 				rel := make(chan struct{})
 				go func() { sys.release(); close(rel) }()
 				select {
